@@ -191,8 +191,17 @@ EffRemoveFrom(c, n, t) ==
 
 (* children.remove_all(): without a filter every listed task goes, with the filter prio = k the listed tasks  *)
 (* whose attribute prio is k (key: 0 = no filter, k+1 = filter on prio k); each takes its subtree along           *)
-RemoveAllSet(c, n, key) == {t \in Ran(c.ch[n]) : key = 0 \/ Prio[t] = key - 1}
-EffRemoveAll(c, n, key) == {[c EXCEPT !.ch = DropEverywhere(c.ch, RemoveAllSet(c, n, key))]}
+(* key 4: a callable that cannot be evaluated for tasks whose attribute mix is None (prio 0): the filter is     *)
+(* evaluated for every candidate before anything is removed, so one such task refuses the whole call.          *)
+(* via 2: WBS.remove_all - the candidates are all members of the WBS, not only its root tasks                    *)
+RemoveAllCand(c, n, via) == IF via = 2 THEN Members(c.ch, n - N) ELSE Ran(c.ch[n])
+RemoveAllSet(c, n, key, via) == {t \in RemoveAllCand(c, n, via) : key \in {0, 4} \/ Prio[t] = key - 1}
+EffRemoveAll(c, n, key, via) ==
+    IF key = 4 /\ \E t \in RemoveAllCand(c, n, via) : Prio[t] = 0 THEN {}
+    ELSE LET S == RemoveAllSet(c, n, key, via)
+             \* a match below another match leaves with it and stays attached to it
+             top == {m \in S : ~\E a \in S \ {m} : m \in Below(c.ch, a)}
+         IN  {[c EXCEPT !.ch = DropEverywhere(c.ch, top)]}
 
 EffMove(c, n, ts0, before, after) ==
     LET ts   == DedupFirst(ts0)
@@ -290,7 +299,7 @@ Effects(c, a) ==
       [] a.name = "ChAppend"       -> EffAppend(c, a.n, a.t)
       [] a.name = "ChInsert"       -> EffInsert(c, a.n, a.i, a.t)
       [] a.name = "ChRemove"       -> EffRemoveFrom(c, a.n, a.t)
-      [] a.name = "ChRemoveAll"    -> EffRemoveAll(c, a.n, a.key)
+      [] a.name = "ChRemoveAll"    -> EffRemoveAll(c, a.n, a.key, a.via)
       [] a.name = "ChMove"         -> EffMove(c, a.n, a.seq, a.before, a.after)
       [] a.name = "ChSort"         -> EffSort(c, a.n, a.key, a.rev)
       [] a.name = "ChReorder"      -> EffReorder(c, a.n, a.seq)
